@@ -41,6 +41,15 @@ CHECKS["C04"] = dict(
     note="Model of the code after the fix: commits for D4 and D8. Buffer overflow is outside this model (C10).",
     design="6/C04", technique="Coq proof (inductive invariant over the watch pipeline LTS, quiescence theorem) + quiescent-outcome correspondence under injected watch faults in virtual time")
 
+CHECKS["C03"] = dict(
+    text="Model of controller.run's list/watch cases over the cache model and an abstract API server (a log with strictly increasing versions). Proved: each good list is applied as one doSync of the whole list and restarts the watch at the list version; relist_converges / quiescent_server_one_relist: for EVERY server history, controller filter, earlier lists and watch behaviour that delivers only entries of the log (in any order, with any losses, duplicates, replays, or nothing at all), the next list that is a snapshot of the server leaves cache = the server's accepted objects; never regresses; the published events replay exactly (C02 lifted); composed with C13's relist progress. Correspondence: whole controller vs fake API server in synctest virtual time under 8 watch-fault modes x periods x list latencies x filters x perturbation: cache after every list (watch off) and after one relist on a quiet server vs the extracted relist_outcome, subscriber mirror, Close.",
+    note="Hypotheses: log_ok, is_list_of, watch_from_log (entries of the log only). Liveness of relisting is C13 (fairness).",
+    design="6/C03", technique="Coq proof (from_log invariant over all controller input sequences + per-key convergence theorem) + virtual-time fault-injection correspondence")
+CHECKS["C14"] = dict(
+    text="classify_list mirrors executeList/listResourceVersion/extractList; kstep mirrors controller.run's cases. Proved for all input sequences: a failing list stops the controller with its cause and publishes nothing; every non-list result is a failure; the stop is final; a failed first list never makes it ready whatever follows; watch faults and watch events never stop it; a run whose only trigger is Close ends with no error. Correspondence: every failure kind at the k-th list, every watch failure kind, triggers {none, Close, cancel}, with a subscriber tree attached; Ready/Done/Error/descendants vs the extracted krun on the same input sequence, cause by identity.",
+    note="apimachinery list classification is modelled. 'list without resourceVersion accessor' is unreachable in the code (executeList rejects non-meta.List first).",
+    design="6/C14", technique="Coq proof (decision function + step-function invariants over all input sequences) + fault-enumeration correspondence in virtual time")
+
 PENDING = {}
 
 def main():
